@@ -141,6 +141,8 @@ func runNode(events []string, props []string, args map[string]string) (res vx.Re
 		}
 		crashedHere := s.st.f.frozen
 		if s.st.f.frozen {
+			// Calls that were in flight when the process stopped are not calls that "did not return".
+			s.blocked, n.blocked = "", ""
 			n.stop()
 			durable := s.snapshotStoresOnly()
 			o.afterCrash(before, durable)
